@@ -21,7 +21,7 @@ ASSUMPTIONS = ["BTreeMap::get / Option / Result combinators have their documente
 LEVEL_TEXT = ("Closure by construction: for each of the 17 reference fields of the model's reference graph (transcribed from the statement), every literal the "
               "converter builds takes the field from a lookup into the table of the right kind whose failure is propagated as an error (or from None for an "
               "optional link without a name); the id stored in each element and the id stored in the lookup table are computed from the same source object; "
-              "the parser's own name checks lead to error returns. Four reasoned exceptions are listed in the evidence. Decides 'no nil/missing link is ever "
+              "the parser's own name checks lead to error returns. Three reasoned exceptions (lookups that cannot fail because an earlier step of the same conversion already failed for the missing name) are listed in the evidence. Decides 'no nil/missing link is ever "
               "written' for every project; id uniqueness is not decided.")
 LEVEL_NOTE = "Trusted: rustc MIR, std collection semantics, the reference graph in ctecheck/spec/refgraph.py."
 TECHNIQUE = "def-use provenance of struct-literal fields + consumption classification of fallible lookups"
